@@ -44,7 +44,7 @@ def job(spec):
         rng = np.random.default_rng(f["seed"])
         S, nsblk, C, nbits, pol, asc = f["S"], f["nsblk"], f["C"], f["nbits"], f["pol"], f["asc"]
         npol, ptype = POLS[pol]
-        raw = rng.integers(0, 2 ** nbits if nbits < 8 else 64, size=(S, nsblk, npol, C))
+        raw = rng.integers(0, 2 ** nbits if nbits < 8 else 200, size=(S, nsblk, npol, C))
         scl = rng.integers(1, 3, size=(S, npol, C))
         offs = rng.integers(0, 4, size=(S, npol, C))
         wts = rng.integers(0, 3, size=(S, C))
@@ -55,13 +55,13 @@ def job(spec):
         freqs_desc = [fhi - i * df for i in range(C)]
         freqs = freqs_desc[::-1] if asc else freqs_desc
         path = d / f"c18_{spec['id']}_{fi}.sf"
+        N = S * nsblk - int(f.get("short", 0))           # NSTOT: the last row may be only partly filled
         pfits_fixture.make_pfits(path, raw, scl, offs, wts, nbits=nbits, freqs=freqs, pol_type=ptype, tbin=f["tbin_micro"] / 1e6,
-                                 zero_off=float(zo))
+                                 zero_off=(int(zo) if f.get("zo_int") else float(zo)), nstot=N)
         hdr = {"raw": raw.tolist(), "scl": scl.tolist(), "offs": offs.tolist(), "wts": wts.tolist(), "zo": zo, "pol": pol,
                "ascending": bool(asc), "S": S, "nsblk": nsblk, "C": C, "nbits": nbits, "fhi_milli": f["fhi_milli"],
-               "df_milli": f["df_milli"], "tbin_micro": f["tbin_micro"]}
+               "df_milli": f["df_milli"], "tbin_micro": f["tbin_micro"], "nstot": N}
         ev, plans = [], []
-        N = S * nsblk
         oc, fil = _call(lambda: PFITSReader(str(path)))
         if fil is None:
             out.append({"hdr": hdr, "ev": [], "plans": [], "cfg": dict(f), "precondition": f"open failed: {oc}"})
@@ -92,6 +92,11 @@ def job(spec):
                 oc, b = _call(lambda: fil.read_block(s, n))
                 ev.append({"a": "block", "start": s, "n": n, "outcome": oc, "shape": [int(x) for x in np.asarray(b.data).shape] if b is not None else [],
                            "valsq": _q(np.asarray(b.data).T) if b is not None else []})
+                if b is not None:         # a block belongs to its caller: scribbling on it must not show in any later read
+                    try:
+                        np.asarray(b.data)[...] = -777.0
+                    except (ValueError, TypeError):
+                        pass
         for (s, n, gulp) in f["reduce"]:
             for op in ("collapse", "bandpass", "chan", "stats"):
                 e = {"a": "reduce", "op": op, "start": s, "n": n, "gulp": gulp, "ch": (s + gulp) % C, "valsq": [], "chans": []}
@@ -137,7 +142,8 @@ def run(v) -> None:
     for i, (pol, asc, nbits) in enumerate(layouts if not quick else layouts[::1]):
         for rep in range(1 if quick else 7):
             S, nsblk = rng.choice([(2, 4), (3, 4), (3, 2), (2, 6)])
-            N = S * nsblk
+            short = rng.randrange(1, nsblk) if len(files) % 2 else 0
+            N = S * nsblk - short
             red = []
             for _ in range(3 if quick else 8):
                 s = rng.randrange(0, N - 1)
@@ -149,7 +155,7 @@ def run(v) -> None:
                 g = rng.randrange(1, n + 2)
                 plans.append((g, s, n, rng.choice([0, 0, min(g, n) // 2])))
             files.append({"seed": seed() * 43 + len(files), "S": S, "nsblk": nsblk, "C": 4, "nbits": nbits, "pol": pol, "asc": asc,
-                          "zo": rng.choice([0, 2]), "fhi_milli": 1400000, "df_milli": rng.choice([1000, 500, 2000]),
+                          "zo": rng.choice([0, 2, 3] if nbits == 4 else [0, 2, 128, 100]), "zo_int": rng.random() < 0.5, "short": short, "fhi_milli": 1400000, "df_milli": rng.choice([1000, 500, 2000]),
                           "tbin_micro": rng.choice([1000, 64, 512]), "reduce": red, "plans": plans, "quick": quick})
     specs = [{"id": i, "files": files[i::12]} for i in range(12)]
     res = [t for r in pool.pmap(job, specs, workers=12) for t in r]
